@@ -186,6 +186,8 @@ impl ClientLoop {
 
     pub(crate) async fn run(&mut self, io: &mut PhysLayer) -> SessionError {
         self.timeout_counter.reset();
+        // bytes buffered from a previous connection must not be spliced into this one
+        self.reader.reset();
         loop {
             if let Err(err) = self.poll(io).await {
                 tracing::warn!("ending session: {err}");
